@@ -155,6 +155,16 @@ fn main() {
             "--suite" => only_suite = Some(val()),
             "--case-seed" => only_case = val().parse().ok(),
             "--verbose" => verbose = true,
+            "--probe-long-ident" => {
+                // run in a child process by the C09 suite: parses a test with one identifier of n characters; a native
+                // stack overflow kills this process, which the parent sees
+                let n: usize = val().parse().unwrap_or(1000);
+                let name = "v".repeat(n);
+                let src = format!("A Y\nlet {name} = 1;\n({name}) 1\n");
+                let r = src.parse::<digital_test_runner::ParsedTestCase>();
+                println!("probe {}", if r.is_ok() { "ok" } else { "err" });
+                std::process::exit(0);
+            }
             "--part" => part = val().parse().unwrap_or(0),
             "--parts" => parts = val().parse::<u64>().unwrap_or(1).max(1),
             _ => {
